@@ -843,7 +843,9 @@ func (c kcase) schedLines() []string {
 		}
 	}
 	vl := strings.TrimSpace(fmt.Sprintf("vsched %d %s %s %s %d %s", ty, o, eq, init, vpre, strings.Join(vsteps, " ")))
-	return []string{mk(c.enc(), "list"), mk(o, "pull"), mk(o, "pullid="+c.PullID), mk("B1", "pull"), vl, mkAt(c.enc(), "list", n)}
+	vg := strings.TrimSpace(fmt.Sprintf("vget %d %s %s %s", ty, c.enc(), init, strings.Join(vsteps, " ")))
+	return []string{mk(c.enc(), "list"), mk(o, "pull"), mk(o, "pullid="+c.PullID), mk("B1", "pull"), vl, mkAt(c.enc(), "list", n),
+		mk(c.enc(), "get="+c.PullID), mkAt(c.enc(), "get="+c.PullID, n), vg}
 }
 
 func (c kcase) schedText(out kout) string {
@@ -866,7 +868,8 @@ func (c kcase) schedText(out kout) string {
 		}
 		le = strings.Join(xs, " ")
 	}
-	return "list: " + l + " ; pull: " + texts(out.S1) + " ; pullid: " + texts(out.P1) + " ; plain: " + texts(out.S0) + " ; value: " + texts(out.V1) + " ; list afterwards: " + le
+	return "list: " + l + " ; pull: " + texts(out.S1) + " ; pullid: " + texts(out.P1) + " ; plain: " + texts(out.S0) + " ; value: " + texts(out.V1) + " ; list afterwards: " + le +
+		" ; get: " + msgText(out.GetStart) + " ; get afterwards: " + msgText(out.GetEnd) + " ; value get afterwards: " + msgText(out.VGetEnd)
 }
 
 func (c kcase) codeText(out kout) string {
@@ -1268,8 +1271,9 @@ func runCollCases(cases []kcase, tie, stie *lib.Tie, mon *lib.Monitor, drv *lib.
 		model := "no panic"
 		if out.Panic == "" {
 			model = "list: " + ans[k] + " ; pull: " + ans[k+1] + " ; pullid: " + ans[k+2] + " ; value: " + ans[k+3]
-			smodel := "list: " + ans[k+4] + " ; pull: " + ans[k+5] + " ; pullid: " + ans[k+6] + " ; plain: " + ans[k+7] + " ; value: " + ans[k+8] + " ; list afterwards: " + ans[k+9]
-			k += 10
+			smodel := "list: " + ans[k+4] + " ; pull: " + ans[k+5] + " ; pullid: " + ans[k+6] + " ; plain: " + ans[k+7] + " ; value: " + ans[k+8] + " ; list afterwards: " + ans[k+9] +
+				" ; get: " + ans[k+10] + " ; get afterwards: " + ans[k+11] + " ; value get afterwards: " + ans[k+12]
+			k += 13
 			if out.NotParked == 0 {
 				stie.Record(c.key(), len(c.Pending) > 0, c, smodel, c.schedText(out))
 				stie.Count(fmt.Sprintf("parked-writers:%d", len(c.releaseOrder())))
